@@ -44,7 +44,9 @@ func (m *MTProto) sendPacket(request tl.Object, expectedTypes ...reflect.Type) (
 	resp := m.getRespChannel()
 	if isNullableResponse(request) {
 		go func() { resp <- &objects.Null{} }() // goroutine cuz we don't read from it RIGHT NOW
-	} else {
+	} else if !m.serviceModeActivated {
+		// in service mode (making auth key) responses aren't bound to message id, all of them go to
+		// serviceChannel. nobody will ever take it out of the table, so it's not registering there
 		m.responseChannels.Add(int(msgID), resp)
 	}
 
